@@ -184,7 +184,7 @@ theorem tu_next_started (rec : Rec) (stopped : Bool) (a t a' : Op) (st : TakeSt)
     takeStep rec (.next stopped) a t st =
       (.takeUntil a' t { st with ph := .idle, srcRunning := false }, outs, some (.next o)) := by
   cases stopped <;> cases o <;>
-    simp [takeStep, hph, h1, h2, ha, tuRequestStop, tuOnSrcNext, TU.res]
+    simp [takeStep, takeNext, takeTrigStart, takeSrcStart, hph, h1, h2, ha, tuRequestStop, tuOnSrcNext, TU.res]
 
 theorem tu_next_unstarted (rec : Rec) (stopped : Bool) (a t a' t' : Op) (st : TakeSt) (outs1 outs2 : List Out)
     (o ot : Outcome)
@@ -196,7 +196,7 @@ theorem tu_next_unstarted (rec : Rec) (stopped : Bool) (a t a' t' : Op) (st : Ta
       (.takeUntil a' t' { st with ph := .idle, srcRunning := false, trigStarted := true, trigRunning := false,
                                   src := true, ready := true }, outs1 ++ outs2, some (.next o)) := by
   cases stopped <;> cases o <;>
-    simp [takeStep, hph, h1, h2, h3, h5, ha, ht, tuRequestStop, tuOnSrcNext, tuOnTrigNext, tuStopTrig, TU.res]
+    simp [takeStep, takeNext, takeTrigStart, takeSrcStart, hph, h1, h2, h3, h5, ha, ht, tuRequestStop, tuOnSrcNext, tuOnTrigNext, tuStopTrig, TU.res]
 
 theorem pull_inline : ∀ (fuel : Nat) (op : Op) (stopped : Bool), St specs false op → op.need specs ≤ fuel →
     PullOK specs op stopped (deliver specs fuel (.next stopped) op) := by
@@ -375,7 +375,7 @@ theorem tu_cleanup_started (rec : Rec) (a t a' t' : Op) (st : TakeSt) (o1 o2 : L
     ∃ st', takeStep rec .cleanup a t st =
       (.takeUntil a' t' st', o1 ++ o2, some (.clean (firstErr ea et))) := by
   cases ea <;> cases et <;>
-    simp [takeStep, hph, h3, hj, hse, hte, ha, ht, tuJoinSrc, tuJoinTrig, tuJoin, tuStartTrigCleanup, TU.res, firstErr]
+    simp [takeStep, takeCleanup, takeCleanupTail, hph, h3, hj, hse, hte, ha, ht, tuJoinSrc, tuJoinTrig, tuJoin, tuStartTrigCleanup, TU.res, firstErr]
 
 theorem tu_cleanup_started' (rec : Rec) (a t : Op) (st : TakeSt) (ea et : Option Nat)
     (hph : st.ph = .idle) (h3 : st.ready = true) (hj : st.joined = false) (hse : st.srcErr = none)
